@@ -67,17 +67,27 @@ Definition esc (c : Z) : bytes :=
   else [c].
 Definition mangle (s : bytes) : bytes := flat_map esc s.
 
+(* ... and, in the device name, '#' as well (fs/proc_namespace.c mangle(): " \t\n\\#"; seen on the
+   live 6.18 kernel: device '#fo o' is shown as \043fo\040o) *)
+Definition esc_dev (c : Z) : bytes := if c =? 35 then [92; 48; 52; 51] else esc c.
+Definition mangle_dev (s : bytes) : bytes := flat_map esc_dev s.
+
 Definition k_mount_line (e : ment) : bytes :=
-  mangle (m_dev e) ++ 32 :: mangle (m_dir e) ++ 32 :: mangle (m_type e) ++ 32 :: mangle (m_opts e)
+  mangle_dev (m_dev e) ++ 32 :: mangle (m_dir e) ++ 32 :: mangle (m_type e) ++ 32 :: mangle (m_opts e)
   ++ bs " 0 0" ++ [10].
 Definition k_mounts (es : list ment) : bytes := concat (map k_mount_line es).
 
 Definition field_ok (s : bytes) : bool :=
   match s with [] => false | _ => negb (contains 0 s) end.
+(* a mount entry as the kernel can hold it: no NUL anywhere; mount point, type and options are
+   never empty; the device name may be empty (mount -t tmpfs '' /mnt) *)
 Definition wf_ment (e : ment) : bool :=
-  field_ok (m_dev e) && field_ok (m_dir e) && field_ok (m_type e) && field_ok (m_opts e)
-  && negb (prefixb [35] (m_dev e)).
-(* classes of the two known findings *)
+  negb (contains 0 (m_dev e)) && field_ok (m_dir e) && field_ok (m_type e) && field_ok (m_opts e).
+(* class of two known findings: an empty device name (the line starts with a blank, getmntent shifts the
+   fields) and a '#' in the device name (glibc's decode_name does not know \043) *)
+Definition dev_ok (e : ment) : bool :=
+  match m_dev e with [] => false | _ => true end && negb (contains 35 (m_dev e)).
+(* classes of two more findings: line over glibc's buffer (known), non-UTF-8 type/options (fixed) *)
 Definition short_line (e : ment) : bool := (length (k_mount_line e) <=? 4095)%nat.
 Definition utf8_ok (e : ment) : bool := utf8_valid (m_type e) && utf8_valid (m_opts e).
 (* devices whose name psutil replaces by consulting the live /sys (outside the model) *)
